@@ -1083,7 +1083,7 @@ impl TypeSpace {
                         .and_then(|m| m.default.as_ref())
                         .and_then(|v| v.as_f64())
                     {
-                        if default < *imin || default > *imax {
+                        if default < min.unwrap_or(*imin) || default > max.unwrap_or(*imax) {
                             return Err(Error::InvalidValue);
                         }
                     }
